@@ -16,21 +16,21 @@ PROPS = {
             'restart replay', 'ordering properties of channelmanager.rs',
         ],
     },
-    'C03': {'design_ref': '§C03', 'not_decided': ['event emission (exactly one terminal event)', 'duplicate-id refusal', 'restart reconstruction', 'failure attribution', 'balances']},
+    'C03': {'design_ref': '§C03', 'not_decided': ['event emission (exactly one terminal event)', 'duplicate-id refusal', 'restart reconstruction', 'peeling and authenticating the failure onion (only the classification of a decoded failure is under contract)', 'balances']},
     'C04': {'design_ref': '§C04', 'not_decided': ['the cryptography itself (HMAC-SHA256 / SHA256 / ChaCha20 are uninterpreted: that the secret is checked against the right HMAC is proved, that HMACs cannot be forged is assumed)', 'decryption of the payment metadata', 'the block/timer loops that call the per-HTLC expiry tests (only check_mpp_timeout, check_onchain_timeout and the advertised claim deadline are under contract)', 'all-or-nothing claim across channels']},
     'C05': {'design_ref': '§C05', 'not_decided': ['release of a secret only after a newer signed commitment', 'at most one unrevoked counterparty commitment',
                                                   'comparison of the secret with the announced point in revoke_and_ack', 'reestablish', 'restart']},
-    'C06': {'design_ref': '§C05', 'not_decided': ['recognising the revoked transaction', 'building valid justice transactions for every output', 'the re-issuing loop of OnchainTxHandler (only the bump arithmetic feerate_bump / get_height_timer is under contract)', 'reload']},
-    'C07': {'design_ref': '§C07', 'not_decided': ['which outputs are claimed', 'consensus validity/finality', 'get_claimable_balances conservation', 'anchors with external inputs', 'sweeps']},
+    'C06': {'design_ref': '§C05', 'not_decided': ['recognising the revoked transaction', 'consensus validity of the justice transaction as a whole (scripts, witnesses; the signing key, the signed script operands and the claim per output are under contract, the cryptography is uninterpreted)', 'the re-issuing loop of OnchainTxHandler (only the bump arithmetic feerate_bump / get_height_timer is under contract)', 'reload']},
+    'C07': {'design_ref': '§C07', 'not_decided': ['which outputs are claimed', 'consensus validity/finality', 'get_claimable_balances conservation', 'anchors with external inputs', 'OutputSweeper scheduling and signing of sweeps (the change / feerate arithmetic and the inputs are under contract)']},
     'C08': {'design_ref': '§C08', 'not_decided': ['that the monitor evaluates the (sliced, proved) go-on-chain test for every HTLC of every commitment and acts on it', 'automatic fail-back on new blocks', 'fail-back only after burial']},
-    'C11': {'design_ref': '§C11', 'not_decided': ['independence from the delivery style', 'idempotent re-delivery', 'what OnchainTxHandler does on reorg', 'events already acted upon']},
+    'C11': {'design_ref': '§C11', 'not_decided': ['independence from the delivery style', 'idempotent re-delivery', 'events already acted upon', 'the manager-side close decision after a funding reorg']},
     'C12': {'design_ref': '§C12', 'not_decided': ['round trip of ChannelManager, ChannelMonitor (only the length-prefixed loop bounds and the legacy event records are under contract), ChannelMonitorUpdate, graph, scorer, sweeper', 'behavioural equivalence after reload']},
     'C13': {'design_ref': '§C12', 'not_decided': ['messages with keys/signatures', 'feature vectors', 'decoding totality on arbitrary-length input']},
     'C14': {'design_ref': '§C14', 'not_decided': ['that peeling yields each hop payload (ChaCha20 stream, filler correctness)', 'the cryptography itself (HMAC uninterpreted: that the gate compares against the HMAC of hop data + payment hash is proved)', 'failure attribution to the right hop']},
     'C15': {'design_ref': '§C15', 'not_decided': ['handshake acts (ECDH)', 'back-pressure (pausing and resuming reads) and message dispatch after decryption in peer_handler.rs', 'Init-before-anything', 'panic freedom of the rest of the peer handler']},
     'C16': {'design_ref': '§C16', 'not_decided': ['connectivity', 'capacity shared across paths', 'limits', 'does not report failure when a path exists (get_route)']},
     'C17': {'design_ref': '§C17', 'not_decided': ['the signature on channel_update (secp_verify_sig! inside update_channel_internal) and the cryptography itself (uninterpreted)', 'rejection of updates for unknown channels (map lookup)', 'removal of permanently failed channels and of nodes left without channels', 'order-independence and duplication-insensitivity of the whole graph (history property)', 'serialization of the graph', 'rapid-gossip-sync snapshots', 'that the sliced tests are applied on every path that stores information']},
-    'C18': {'design_ref': '§C18', 'not_decided': ['the cryptography itself (ECDSA / Schnorr uninterpreted: that each object is checked against the right key over the right hash is proved)', 'bech32 checksum', 'merkle root construction', 'metadata HMACs (signer.rs)', 'string-level parsing totality', 'BOLT-12 TLV stream parsing and semantic validation other than the amount ranges and the signature checks']},
-    'C19': {'design_ref': '§C19', 'not_decided': ['atomic map behaviour of FilesystemStore', 'crash recovery', 'the update-vs-full-monitor decision of update_persisted_channel', 'reading and applying the sorted, filtered updates (only the sort and the filter are under contract)']},
-    'C20': {'design_ref': '§C20', 'not_decided': ['the notification calls themselves (connect_blocks)', 'cache eviction', 'synchronize_listeners', 'behaviour under source errors', 'termination']},
+    'C18': {'design_ref': '§C18', 'not_decided': ['the cryptography itself (ECDSA / Schnorr uninterpreted: that each object is checked against the right key over the right hash is proved)', 'bech32 checksum', 'merkle root construction', 'that the TLV bytes a builder feeds the metadata HMAC are the concatenation of the records the verifier iterates (assumed)', 'string-level parsing totality', 'BOLT-12 TLV stream parsing and semantic validation other than the amount ranges and the signature checks']},
+    'C19': {'design_ref': '§C19', 'not_decided': ['atomic map behaviour of FilesystemStore beyond the per-key version order (temporary file + rename, listing, concurrency)', 'crash recovery as a whole-history property', 'the update-vs-full-monitor decision of update_persisted_channel', 'reading and applying the sorted, filtered updates (only the sort and the filter are under contract)']},
+    'C20': {'design_ref': '§C20', 'not_decided': ['the notification calls themselves (connect_blocks)', 'cache eviction', 'synchronize_listeners as a whole (three of its tests are under contract)', 'behaviour under source errors', 'termination']},
 }
